@@ -72,109 +72,35 @@ func (t *fnTrans) setupParams() {
 			}
 		}
 	}
+	t.closureFacts()
 }
 
 // atEntry: lock preconditions (held set at entry).
 func (t *fnTrans) atEntry() {
 	heldInit := "((as const (Array Int Bool)) false)"
 	if t.contract != nil {
-		for _, path := range t.contract.holds {
-			k, _, ok := t.lockPathKey(path)
+		e := t.selfCtx()
+		e.locals = false
+		for _, path := range append(append([]string{}, t.contract.holds...), t.contract.releases...) {
+			k, _, lf, ok := t.lockKeyExpr(e, path)
 			if !ok {
 				t.g.ann.errs = append(t.g.ann.errs, fmt.Sprintf("%s: cannot resolve held lock %q", t.key, path))
 				continue
 			}
+			t.lockKeys = append(t.lockKeys, lockKeyRef{k, lf})
 			heldInit = store(heldInit, k, "true")
-		}
-		for _, path := range t.contract.releases {
-			k, _, ok := t.lockPathKey(path)
-			if ok {
-				heldInit = store(heldInit, k, "true")
-			}
 		}
 	}
 	t.assume(eq(t.h.get(t.cur, "held"), heldInit))
 	t.assume(eq(t.h.get(t.cur, "rheld"), "((as const (Array Int Bool)) false)"))
 	t.contractEntry()
-}
-
-// lockPathKey evaluates a lock path like "s.Mutex", "p.s.Mutex" or "Mutex"
-// (relative to the receiver) to the ghost key term.
-func (t *fnTrans) lockPathKey(path string) (key string, field string, ok bool) {
-	parts := strings.Split(path, ".")
-	var cur string
-	var curT types.Type
-	start := 0
-	// first component: a parameter / free variable name, else relative to receiver
-	found := false
-	for _, p := range t.fn.Params {
-		if p.Name() == parts[0] {
-			cur, curT = t.val(p), p.Type()
-			start = 1
-			found = true
-			break
-		}
+	if t.g.canary && t.contract != nil {
+		// vacuity guard: `false` must be refutable under the preconditions and invariants
+		save := t.cur.reach
+		o := t.oblige("canary", "entry", t.fn.Pos(), "false", "canary: must be refuted (sat)")
+		o.Trivial = false
+		t.cur.reach = save
 	}
-	if !found {
-		for _, fv := range t.fn.FreeVars {
-			if fv.Name() == parts[0] {
-				// free vars are pointers to the captured variable
-				l := t.locOf(fv)
-				cur, curT = t.load(l), l.typ
-				start = 1
-				found = true
-				break
-			}
-		}
-	}
-	if !found {
-		if len(t.fn.Params) == 0 || t.fn.Signature.Recv() == nil {
-			// global path: pkgvar.field
-			if g := t.globalByName(parts[0]); g != nil {
-				gt := g.Type().(*types.Pointer).Elem()
-				if _, isSt := gt.Underlying().(*types.Struct); isSt {
-					cur, curT = t.val(g), g.Type()
-				} else {
-					hv, ty := t.globalHV(g)
-					cur, curT = t.h.get(t.cur, hv), ty
-				}
-				start = 1
-			} else {
-				return "", "", false
-			}
-		} else {
-			cur, curT = t.val(t.fn.Params[0]), t.fn.Params[0].Type()
-		}
-	}
-	for i := start; i < len(parts); i++ {
-		T := deref(curT)
-		st, isSt := T.Underlying().(*types.Struct)
-		if !isSt {
-			return "", "", false
-		}
-		fi := -1
-		for j := 0; j < st.NumFields(); j++ {
-			if st.Field(j).Name() == parts[i] {
-				fi = j
-			}
-		}
-		if fi < 0 {
-			return "", "", false
-		}
-		if i == len(parts)-1 {
-			return t.faddr(T, fi, cur), t.g.typeKey(T) + "." + parts[i], true
-		}
-		ft := st.Field(fi).Type()
-		if _, nested := ft.Underlying().(*types.Struct); nested {
-			cur = t.faddr(T, fi, cur)
-			curT = types.NewPointer(ft)
-			continue
-		}
-		hv, _, _ := t.fieldHV(T, fi)
-		cur = sel(t.h.get(t.cur, hv), cur)
-		curT = ft
-	}
-	return "", "", false
 }
 
 func (t *fnTrans) globalByName(name string) *ssa.Global {
@@ -199,8 +125,11 @@ func (t *fnTrans) atReturn(in *ssa.Return, rs []string) {
 	// lock.balance: held set on exit = held set required (entry set by default)
 	want := "((as const (Array Int Bool)) false)"
 	if t.contract != nil {
+		e := t.selfCtx()
+		e.locals = false
+		e.st = t.entry
 		for _, path := range append(append([]string{}, t.contract.holds...), t.contract.acquires...) {
-			if k, _, ok := t.lockPathKeyAt(path, t.entry); ok {
+			if k, _, _, ok := t.lockKeyExpr(e, path); ok {
 				want = store(want, k, "true")
 			}
 		}
@@ -214,13 +143,12 @@ func (t *fnTrans) atReturn(in *ssa.Return, rs []string) {
 	}
 	t.ownReturnHook(in, rs)
 	t.contractReturn(in, rs)
-}
-
-func (t *fnTrans) lockPathKeyAt(path string, st *State) (string, string, bool) {
-	save := t.cur
-	t.cur = st
-	defer func() { t.cur = save }()
-	return t.lockPathKey(path)
+	if t.g.canary && t.contract != nil && t.cur.reach != "false" {
+		save := t.cur.reach
+		o := t.oblige("cover", t.sites[in], in.Pos(), "false", "cover: this return must be reachable under the contract")
+		o.Trivial = false
+		t.cur.reach = save
+	}
 }
 
 // returnDisc: a semantic discriminator for a return site: the error constant returned, if any.
@@ -270,9 +198,9 @@ func (t *fnTrans) loopModSet(li *loopInfo) (all bool, vars map[string]bool) {
 				g.noteStore(c, s, in.Addr)
 			case *ssa.MapUpdate:
 				m := in.Map.Type().Underlying().(*types.Map)
-				ks, vs := g.sortOf(c, m.Key()), g.sortOf(c, m.Elem())
-				s.vars["MD:"+bare(ks)] = true
-				s.vars["MV:"+bare(ks)+":"+bare(vs)] = true
+				dn, vn := g.mapVarNames(m)
+				s.vars[dn] = true
+				s.vars[vn] = true
 				s.vars["ML"] = true
 			case *ssa.MakeChan:
 				s.vars["chclosed"] = true
@@ -290,7 +218,8 @@ func (t *fnTrans) loopModSet(li *loopInfo) (all bool, vars map[string]bool) {
 				s.vars["E:"+bare(g.sortOf(c, sl.Elem()))] = true
 			case *ssa.MakeMap:
 				m := in.Type().Underlying().(*types.Map)
-				s.vars["MD:"+bare(g.sortOf(c, m.Key()))] = true
+				dn, _ := g.mapVarNames(m)
+				s.vars[dn] = true
 				s.vars["ML"] = true
 			case *ssa.Convert:
 				if sl, ok := in.Type().Underlying().(*types.Slice); ok {
@@ -440,7 +369,7 @@ func (t *fnTrans) enterLoop(b *ssa.BasicBlock, li *loopInfo) {
 // which lock.balance@backedge checks.
 func (t *fnTrans) havocLoop(all bool, vars map[string]bool) {
 	keepGhost := func(hv string) bool {
-		return hv == "held" || hv == "rheld"
+		return hv == "held" || hv == "rheld" || t.g.ann.immutableHV[hv]
 	}
 	reach := t.cur.reach
 	defers := t.cur.defers
@@ -627,6 +556,13 @@ func (t *fnTrans) guardField(owner, fname string, ownerT types.Type, base string
 		goal := sel(t.h.get(t.cur, "held"), k)
 		if !write {
 			goal = or(goal, sel(t.h.get(t.cur, "rheld"), k))
+		}
+		if strings.Contains(fa.lock, ".") {
+			// the lock lives in another object: accept any held lock of that field type
+			// (ownership assumption, DESIGN 2.4: such objects are reachable only from their owner)
+			if lk, _ := t.g.resolveLockPath(ownerT, fa.lock); lk != "" {
+				goal = or(goal, t.heldOfType(lk))
+			}
 		}
 		t.oblige("guard."+acc, disc, pos, goal, "access to a field guarded by "+fa.lock+" without holding it")
 	case "immutable":
@@ -901,3 +837,80 @@ func (t *fnTrans) spawnHook(in ssa.Instruction, fnv ssa.Value, cc *ssa.CallCommo
 }
 
 func (t *fnTrans) resultFacts(callee *ssa.Function, cc *ssa.CallCommon, res ssa.Value, rs []string) {}
+
+
+// closureFacts: relations between captured variables that were established in
+// the enclosing function before the closure was made and cannot change:
+// x := y.f with f immutable (or x, y both single-assignment captures).
+func (t *fnTrans) closureFacts() {
+	fn := t.fn
+	if fn.Parent() == nil {
+		return
+	}
+	allocOf := map[*ssa.Alloc]*ssa.FreeVar{}
+	for _, fv := range fn.FreeVars {
+		if a := t.g.captured(fn, fv); a != nil {
+			allocOf[a] = fv
+		}
+	}
+	for a, fv := range allocOf {
+		if _, ok := t.stable[fv]; !ok {
+			continue
+		}
+		// the single store to a
+		var stored ssa.Value
+		for _, r := range *a.Referrers() {
+			if st, ok := r.(*ssa.Store); ok && st.Addr == a {
+				stored = st.Val
+			}
+		}
+		ld, ok := stored.(*ssa.UnOp)
+		if !ok || ld.Op != token.MUL {
+			continue
+		}
+		fa, ok := ld.X.(*ssa.FieldAddr)
+		if !ok {
+			continue
+		}
+		// base must be a load of another stable captured cell
+		bl, ok := fa.X.(*ssa.UnOp)
+		if !ok || bl.Op != token.MUL {
+			continue
+		}
+		ba, ok := bl.X.(*ssa.Alloc)
+		if !ok {
+			continue
+		}
+		bfv, ok := allocOf[ba]
+		if !ok {
+			continue
+		}
+		bv, ok := t.stable[bfv]
+		if !ok {
+			continue
+		}
+		pt := fa.X.Type().Underlying().(*types.Pointer)
+		st := pt.Elem().Underlying().(*types.Struct)
+		owner := t.g.typeKey(pt.Elem())
+		sa := t.g.ann.structs[owner]
+		if sa == nil || sa.fields[st.Field(fa.Field).Name()] == nil || sa.fields[st.Field(fa.Field).Name()].kind != "immutable" {
+			continue
+		}
+		hv, _, _ := t.fieldHV(pt.Elem(), fa.Field)
+		t.assume(eq(t.stable[fv], sel(t.h.get(t.cur, hv), bv)))
+	}
+}
+
+
+// heldOfType: some lock key of the given "Type.field" seen in this function is held.
+func (t *fnTrans) heldOfType(field string) string {
+	var ds []string
+	seen := map[string]bool{}
+	for _, lk := range t.lockKeys {
+		if lk.field == field && !seen[lk.term] {
+			seen[lk.term] = true
+			ds = append(ds, sel(t.h.get(t.cur, "held"), lk.term))
+		}
+	}
+	return or(ds...)
+}
